@@ -45,11 +45,11 @@ var _ = verifParam("C13", "refresh_interval_ms", func() int64 { return c13Interv
 var _ = verifParam("C13", "refreshability_timeout_ms", func() int64 { return c13Refreshability.Milliseconds() })
 var _ = verifParam("C13", "stale_lock_timeout_ms", func() int64 { return c13Stale.Milliseconds() })
 
-// c13Patched: set to true once work/fixes/C13-refresh-monitor-wedge.patch (F-C13-1) is applied to /repo
-// (the model then runs with cfg.patched = true and the wedge script is an ordinary case).
-const c13Patched = false
-
-func c13IsPatched() bool { return c13Patched || os.Getenv("VERIF_C13_PATCHED") == "1" }
+// The monitor also receives `refreshed` while it waits to hand over a forced-refresh request (fix of
+// F-C13-1, /repo 10ab36bf8): the model runs with cfg.patched = true.  The script "wedge" stays in the
+// corpus as a regression case: should the wedge come back, the holder stays alive with an ever older
+// lock and the freshness oracle fails.
+func c13IsPatched() bool { return true }
 
 var errC13 = errors.New("verif: injected lock backend failure")
 
@@ -395,7 +395,7 @@ func c13Scripts(c *vctx) []c13Script {
 		{Kind: "fail-from-start", FailFrom: 0, FailUntil: -1, SlowFrom: -1, RemoveAt: -1, UnlockAt: -1, End: 70 * min},
 		{Kind: "recover", FailFrom: iv + iv/2, FailUntil: 4*iv + iv/2, SlowFrom: -1, RemoveAt: -1, UnlockAt: 50 * min, End: 70 * min},
 		{Kind: "recover-late", FailFrom: iv + iv/2, FailUntil: iv + R + 100000, SlowFrom: -1, RemoveAt: -1, UnlockAt: -1, End: 70 * min},
-		// slow but successful refresh that ends after the monitor's deadline (known finding F-C13-1)
+		// slow but successful refresh that ends after the monitor's deadline (regression case for F-C13-1)
 		{Kind: "wedge", FailFrom: iv + iv/2, FailUntil: 4*iv + iv/2, SlowFrom: 5*iv - 50000, SlowDur: 200000, RemoveAt: -1, UnlockAt: -1, End: 70 * min},
 		{Kind: "slow-before-deadline", FailFrom: iv + iv/2, FailUntil: 4*iv + iv/2, SlowFrom: 5*iv - 50000, SlowDur: 100000, RemoveAt: -1, UnlockAt: 60 * min, End: 70 * min},
 		{Kind: "ext-remove-fail", FailFrom: iv + iv/2, FailUntil: -1, SlowFrom: -1, RemoveAt: 1000000, UnlockAt: -1, End: 70 * min},
